@@ -50,7 +50,8 @@ MANIFEST = {
             'unique indices, cores and GPUs per entry, DOWN marks, sizes, '
             'disjointness, bounds by requested nodes; then a pristine forked '
             'process with the batch environment removed creates the RM again '
-            'from the registry and its info must be equal.',
+            'from the registry and its info must be equal.'
+            '  PBSPro jobs whose exec_vnode chunks have different sizes: the pilot refuses to start, or every offered node has the one node size it announces (cores_per_node) and no more cores than its vnode.',
     'note': 'in-memory ru.zmq.RegistryClient and a fake rc.process.Process '
             '(ssh probe) are the only substitutions; launch methods are FORK '
             'only; sampled, not enumerated.'}
